@@ -42,8 +42,8 @@ def gen_histories(ctx):
 
 
 def check_keyed(ctx, coq_ok):
-    """HTTP/2 (stream id) and Kafka (correlation id): responses in any order."""
-    for proto in ("http2", "kafka"):
+    """HTTP/2 (stream id), Kafka (correlation id) and AMQP (channel + method family; one exchange per channel): responses in any order."""
+    for proto in ("http2", "kafka", "amqp"):
         hists = M.keyed_histories(ctx.rng, proto, ctx.tier == "quick")
         rc, out = ctx.vh("vh-match", ["seq"], inp="\n".join(M.keyed_line(proto, h) for h in hists) + "\n", timeout=1200)
         lines = [l for l in out.split("\n") if l.startswith("{")]
